@@ -304,7 +304,7 @@ static void execOp(TS &s, const Op &o) {
   auto A = [&](size_t i) -> ll { return i + 2 < o.a.size() ? o.a[i + 2] : 0; };
   switch (o.k) {
   case COPY: {
-    const int obj = (int) (A(0) % NOBJ), n = (int) (1 + A(1) % 8), st = (int) (A(2) % 3);
+    const int obj = (int) (A(0) % NOBJ), n = (int) (1 + A(1) % 16), st = (int) (A(2) % 3);
     switch (obj) {
     case OMEM: copyDestroy(s.bmem, n, st); break;
     case OKERN: copyDestroy(s.bkern, n, st); break;
@@ -619,7 +619,7 @@ static Op mk(int k, int t, int r, std::initializer_list<ll> rest) {
 
 static Op genHandleOp(int t, int r, int obj) {
   const ll w = *rng(0, 9);
-  if (w < 5) return mk(COPY, t, r, {obj, *rng(0, 7), *rng(0, 2)});
+  if (w < 5) return mk(COPY, t, r, {obj, *rng(0, 15), *rng(0, 2)});
   if (w < 6) return mk(HOLD, t, r, {obj, *rng(0, NHOLD - 1)});
   if (w < 7) return mk(DROP, t, r, {obj, *rng(0, NHOLD - 1)});
   if (w < 9) return mk(ROTATE, t, r, {obj});
@@ -666,9 +666,17 @@ static rc::Gen<Case> genCase() {
     c.push_back(h);
     for (int r = 0; r < nR; ++r) {
       // focus of the round: most threads work on the same object / on allocation, to raise contention
-      const int focus = (int) *rng(0, 8);   // 0..4 shared object, 5 allocation, 6 kernels, 7 streams, 8 mixed
-      const int maxOps = (int) *rng(2, 8);
+      // 0..4 shared object, 5 allocation, 6 kernels, 7 streams, 8 mixed, 9 run-only (after a build round: no ring operation
+      // and therefore no lock in the whole round, so nothing orders the threads' kernel runs)
+      int focus = (int) *rng(0, 9);
+      if (focus == 9 && r == 0) focus = 6;
+      const int maxOps = (int) *rng(2, 12);
       for (int t = 0; t < nT; ++t) {
+        if (focus == 9) {
+          const int n = (int) *rng(1, 3);
+          for (int i = 0; i < n; ++i) c.push_back(mk(RUN, t, r, {*rng(0, NKERN - 1), *rng(0, NMEM + NRES - 1)}));
+          continue;
+        }
         const int n = (int) *rng(1, maxOps);
         for (int i = 0; i < n; ++i) {
           const bool onFocus = *rng(0, 9) < 7;
